@@ -199,6 +199,27 @@ let eval (op : string) (a : string list) : string =
      | Some a ->
        if effective_addr (o req) (o cl) <> Some a then "SPECDIFF"
        else a ^ "/" ^ (if stateful then a else "-"))
+  | "fan", [api; parts] ->
+    (* parts: label:F (the sub-response was lost) or label:item+item (what its broker answered) *)
+    let parse p = match sp ':' p with
+      | [label; "F"] -> (label, PartErr (z_of_int 1))
+      | [label; items] -> (label, PartOk (plist '+' (fun x -> x) items))
+      | _ -> failwith "bad part" in
+    let ps = List.map parse (sp ',' parts) in
+    let fmt_ok l = "OK:" ^ cat "+" (List.sort compare l) in
+    if api = "ListGroups" then begin
+      (* labels are b<id>; the items are group@broker: the model attributes the groups of result i to broker i *)
+      let brokers = List.map (fun (label, _) -> z_of_int (int_of_string (String.sub label 1 (String.length label - 1)))) ps in
+      let strip = function
+        | PartOk l -> PartOk (List.map (fun it -> List.hd (sp '@' it)) l)
+        | PartErr e -> PartErr e in
+      match listgroups_merge brokers (List.map (fun (_, r) -> strip r) ps) with
+      | FanErr _ -> "ERR"
+      | FanOk l -> fmt_ok (List.map (fun (g, b) -> g ^ "@" ^ zs b) l)
+    end else
+      (match concat_merge (List.map snd ps) with
+       | FanErr _ -> "ERR"
+       | FanOk l -> fmt_ok l)
   | "of", [ulist; th; err; ts] ->
     let u = plist ';' (ptopic '+' zp) ulist in
     let q = (match offsetfetch_request u with
